@@ -373,7 +373,7 @@ class Body:
             # a component of a tuple literal (or of a struct literal that merely bundles values): `(a, b).1` is b
             ds0 = self.whole_defs(base)
             if len(ds0) == 1 and ds0[0][0] == "stmt" and _bundle_literal(self, ds0[0][3]["rv"], np_[0]) \
-                    and len(self.defs.get(base, [])) == 1 and np_[0]["f"] < len(ds0[0][3]["rv"]["ops"]):
+                    and self._only_whole_defs(base) and np_[0]["f"] < len(ds0[0][3]["rv"]["ops"]):
                 o = ds0[0][3]["rv"]["ops"][np_[0]["f"]]
                 if o.get("k") == "const":
                     return ("const", o) if len(np_) == 1 else ("place", pl)
@@ -423,6 +423,55 @@ class Body:
                 return ("call", d[1], t)
             return ("place", pl)
         return ("place", pl)
+
+    def origin_at(self, op, bb, through_calls=True):
+        """origin() of an operand as used in block bb: where a local has several definitions of which exactly one can
+        reach bb (the others lie on paths that jump threading led elsewhere), that definition is the one followed."""
+        pins = {}
+        cur, cur_bb = op, bb
+        for _ in range(12):
+            if cur.get("k") not in ("move", "copy") or [p for p in cur["pl"]["p"] if p != "deref"]:
+                break
+            l = cur["pl"]["l"]
+            ds = self.whole_defs(l)
+            if len(ds) > 1:
+                def reaches(d, cur_bb=cur_bb):
+                    if d[1] == cur_bb:
+                        return d[0] == "stmt" or self._in_cycle(cur_bb)
+                    return cur_bb in self.reachable_from(d[1])
+                r = [d for d in ds if d[0] in ("stmt", "call") and reaches(d)]
+                if len(r) != 1:
+                    break
+                if any(d[0] not in ("stmt", "call") for d in ds):
+                    break
+                pins[l] = r
+                d = r[0]
+            elif len(ds) == 1:
+                d = ds[0]
+            else:
+                break
+            if d[0] == "stmt" and d[3]["rv"]["k"] == "use" and d[3]["rv"]["op"].get("k") in ("move", "copy"):
+                cur, cur_bb = d[3]["rv"]["op"], d[1]
+                continue
+            break
+        if not pins:
+            return self.origin(op, through_calls)
+        old = self.__dict__.get("_pin")
+        self._pin = dict(old or {})
+        self._pin.update(pins)
+        try:
+            return self.origin(op, through_calls)
+        finally:
+            self._pin = old
+
+    def _only_whole_defs(self, l):
+        """The local is defined once, as a whole (or, when an analysis has singled out one of its definitions, is only
+        ever defined as a whole): no field of it is written separately."""
+        n = len(self.defs.get(l, []))
+        return n == 1 or (l in (self.__dict__.get("_pin") or {}) and n == len(self._whole_defs_raw(l)))
+
+    def _in_cycle(self, bb):
+        return any(bb in self.reachable_from(s) for s in self.succ(bb))
 
     # ------------------------------------------------------------------ awaits
     def awaits(self):
@@ -543,7 +592,7 @@ class Body:
         if projs and isinstance(projs[0], dict) and "f" in projs[0]:
             ds0 = self.whole_defs(pl["l"])
             if len(ds0) == 1 and ds0[0][0] == "stmt" and _bundle_literal(self, ds0[0][3]["rv"], projs[0]) \
-                    and len(self.defs.get(pl["l"], [])) == 1:
+                    and self._only_whole_defs(pl["l"]):
                 k = projs[0]["f"]
                 ops = ds0[0][3]["rv"]["ops"]
                 if k < len(ops):
@@ -998,6 +1047,21 @@ class Body:
     def feasible(self, path):
         """Cheap infeasibility filter: a path may not take contradictory edges on two discriminant tests of the
         same (canonical, never reassigned) place."""
+        if not self._feasible0(path):
+            return False
+        if self.fn.get("flat"):
+            # values carried in nested literals (`Poll::Ready(ReadOutcome::Closed)` tested two matches later)
+            import spec
+            sp = self.__dict__.get("_pathspec")
+            if sp is None:
+                sp = self.__dict__["_pathspec"] = spec.Spec(self, run=False)
+            try:
+                return sp.path_feasible(path)
+            except (KeyError, IndexError, TypeError):
+                return True
+        return True
+
+    def _feasible0(self, path):
         known = {}
         flags = {}      # local -> constant it holds at this point of the path (`matches!(..)` leaves such a flag)
         lits = {}       # local -> discriminant value of the enum literal it was last given on this path
@@ -1201,7 +1265,7 @@ def symex(body, x, depth=0):
                 sp = src["pl"]
                 return symex(body, {"l": sp["l"], "p": list(sp["p"]) + proj}, depth + 1)
         if isinstance(proj[0], dict) and "f" in proj[0] and _bundle_literal(body, rv, proj[0]) and proj[0]["f"] < len(rv["ops"]) \
-                and len(body.defs.get(pl["l"], [])) == 1:
+                and body._only_whole_defs(pl["l"]):
             # a component of a tuple literal
             o = rv["ops"][proj[0]["f"]]
             if o.get("k") == "const":
